@@ -100,17 +100,32 @@ pub fn norm(r: &Res) -> Res {
     }
 }
 
-/// current preference values that differ from a fresh session's, ordered for the reference session
+/// the current preference values (all of them), ordered for the reference session, which sets those that differ from
+/// what it holds itself after reading the same preference files
 pub fn prefs_for_reference(s: &mut Sess) -> Vec<(String, String)> {
     let names = pref_names(&s.ctx.base);
-    let defaults = fresh_defaults(s, &names);
-    let cur = s.read_prefs(&names);
-    let mut diff: Vec<(String, String)> = Vec::new();
-    for (n, v) in cur {
-        let is_sep = n == "DecimalSeparators" || n == "BlockSeparators";
-        if is_sep || defaults.get(&n) != Some(&v) {
-            diff.push((n, v));
-        }
+    let mut cur = s.read_prefs(&names);
+    // LanguageAuto is only looked at (and can only be set) while Language is Auto
+    let language_is_auto = cur.iter().any(|(n, v)| n == "Language" && v == "Auto");
+    if !language_is_auto {
+        cur.retain(|(n, _)| n != "LanguageAuto");
     }
-    order_prefs_for_reference(&diff)
+    order_prefs_for_reference(&cur)
+}
+
+/// A (name, value) pair for an edit of a preference in prefs.yaml: always a value that is valid for that name
+/// (file contents are not validated by MathCAT; semantically wrong values in files are not what these checks are about)
+pub fn valid_file_pref(rng: &mut crate::rng::Rng) -> (String, String) {
+    let table: &[(&str, &[&str])] = &[
+        ("Verbosity", &["Terse", "Medium", "Verbose"]),
+        ("NavVerbosity", &["Terse", "Medium", "Verbose"]),
+        ("BrailleNavHighlight", &["Off", "FirstChar", "EndPoints", "All"]),
+        ("Language", &["Auto", "en", "sv", "es", "fi"]),
+        ("SpeechStyle", &["ClearSpeak", "SimpleSpeak"]),
+        ("AutoZoomOut", &["true", "false"]),
+        ("Overview", &["true", "false"]),
+        ("NavMode", &["Enhanced", "Simple", "Character"]),
+    ];
+    let (n, vals) = rng.pick(table);
+    (n.to_string(), rng.pick(vals).to_string())
 }
